@@ -943,6 +943,13 @@ void oracle_c11(Plan const& p, RunOut const& out, ChkptView const& v, Report& re
                     }
                     ld const val = round_to(p.nt, a.value * w);
                     if (!std::isfinite(val)) continue;
+                    if (!in_domain(p.nt, val) || !in_domain(p.nt, val * val / (dv.sx * dv.sy) / (dv.sx * dv.sy)))
+                    {
+                        // outside the exponent range the tolerances are meant for
+                        weights_ok = false;
+                        rep.probes["bins-skipped-exponent-range"]++;
+                        continue;
+                    }
                     ++nadds;
                     if (std::getenv("HEPSIM_DEBUG")) std::fprintf(stderr, "add dist %zu call %llu x=%.21Lg y=%.21Lg val=%.21Lg\n", d, (unsigned long long) r.idx, a.x, a.y, val);
 
@@ -1562,6 +1569,7 @@ std::string compare_views(ChkptView const& a, ChkptView const& b, bool ignore_nz
             i, a.next[i], b.next[i]);
     }
     if (a.gen_texts != b.gen_texts) return "stored generators differ";
+    if (a.gen_is_last && !b.gen_is_last) return "generator() is no longer the last stored generator";
     return std::string();
 }
 
